@@ -132,7 +132,7 @@ def handle (op : String) (j : Json) : Except String Json := do
     let dflt : Int := match getInt j "dflt" with | .ok v => v | .error _ => 0
     let r := fromIntervalsArr (recs.map (·.1)) (recs.map (·.2.1)) size (recs.map (·.2.2)) dflt
     pure (reply (rleJ kind r) (some (Json.mkObj [("dense", intList (nz kind (specDense dflt recs size)))])))
-  | "track" | "geo_track" =>
+  | "track" | "geo_track" | "track_from_dict" =>
     let sizes ← getNatList j "sizes"
     let recs ← toCRecs (← getIntListList j "recs")
     let kind ← getStr j "kind"
@@ -186,6 +186,39 @@ def handle (op : String) (j : Json) : Except String Json := do
       -- values as normalised bit patterns; the 64-bit words go through the same xor-accumulate expansion
       let r : Rle Int := mapRle (fun v => normBits v.bits) g
       pure (reply ((observe sizes r "float").mergeObj (Json.mkObj [("bool", Json.bool false)])))
+  | "rle_to_array" =>
+    -- the constructor's arguments as given; values are the machine words of the dtype (float16/32/64 views, int64, bool)
+    let events ← getNatList j "events"
+    let values ← getIntList j "values"
+    let kind ← getStr j "kind"
+    let r : Rle Int := ⟨events, values⟩
+    -- the bit pattern of -0.0 for the dtype (2^15 / 2^31 / 2^63), reported as +0.0
+    let negz : Int := match getInt j "negzero" with | .ok v => v | .error _ => (2 : Int) ^ 70
+    let nzl := fun (l : List Int) => l.map (fun v => if v == negz then 0 else v)
+    let recs := (dataRecs r).map (fun x => [(x.1 : Int), (x.2.1 : Int)] ++ nzl [x.2.2])
+    pure (reply (Json.mkObj [("dense", intList (nzl (denseKind kind r))), ("bedgraph", intListList recs)])
+      (some (Json.mkObj [("dense", intList (nzl r.toDense))])))
+  | "extract" =>
+    let sizes ← getNatList j "sizes"
+    let recs ← toCRecs (← getIntListList j "recs")
+    let stranded ← getBool j "stranded"
+    let ivs ← getNatListList j "ivs"
+    let locs ← getNatListList j "locs"
+    let r := leafTrack sizes recs
+    let offs := offsets sizes
+    let rows ← ivs.mapM (fun l => match l with
+      | [c, a, b, f] => (pure (offs.getD c 0 + a, offs.getD c 0 + b, f == 1) : Except String (Nat × Nat × Bool))
+      | _ => throw "interval must be [chrom, start, stop, fwd]")
+    let ps ← locs.mapM (fun l => match l with
+      | [c, p] => (pure (offs.getD c 0 + p) : Except String Nat)
+      | _ => throw "location must be [chrom, pos]")
+    let dense := r.toDense
+    pure (reply (Json.mkObj [("rows", intListList (extractRows r rows stranded)),
+        ("at", intList (ps.map (fun p => (valueAtPos r p).getD 0)))])
+      (some (Json.mkObj [("rows", intListList (rows.map (fun x =>
+          let d := (dense.drop x.1).take (x.2.1 - x.1)
+          if stranded && !x.2.2 then d.reverse else d))),
+        ("at", intList (ps.map (fun p => dense.getD p 0)))])))
   | _ => throw s!"C09: unknown op {op}"
 
 end Drv.C09
